@@ -142,6 +142,8 @@ func main() {
 		cmdCheck(os.Args[2:])
 	case "gen":
 		cmdGen(os.Args[2:])
+	case "effects":
+		cmdEffects(os.Args[2:])
 	default:
 		fmt.Fprintln(os.Stderr, "unknown command")
 		os.Exit(2)
@@ -257,3 +259,26 @@ func (P *Program) resolveKey(k string) string {
 	return k
 }
 
+
+func cmdEffects(args []string) {
+	fs := flag.NewFlagSet("effects", flag.ExitOnError)
+	repo, pkg, ext := commonFlags(fs)
+	fns := fs.String("fn", "", "function")
+	fs.Parse(args)
+	P, err := loadProgram(*repo, *pkg, *ext)
+	if err != nil {
+		fmt.Fprintln(os.Stderr, err)
+		os.Exit(2)
+	}
+	x := newExec(P, false)
+	fn := P.fnByKey[P.resolveKey(*fns)]
+	if fn == nil {
+		fmt.Println("no such function")
+		return
+	}
+	ws := x.effects(fn)
+	fmt.Println("all:", ws.all, ws.why)
+	for _, k := range ws.sortedKeys() {
+		fmt.Println(" ", k)
+	}
+}
